@@ -42,7 +42,6 @@ TABLE = [
     ('SchedulerContext', 'finished', [], None),
     ('SchedulerContext', 'logical_timestamp', [('::fetch_add', ['f:SchedulerContext.logical_clock', 'const:1_usize'])], 'c:::fetch_add'),
     ('scheduler::cursor::PublishedCursor', 'publish', [('::store', ['f:PublishedCursor.0', '$2'])], None),
-    ('scheduler::cursor::PublishedCursor::get', 'get', [('::load', ['f:PublishedCursor.0'])], 'c:::load'),
     ('scheduler::cursor::RewindableCursor', 'rewind', [('::fetch_min', ['f:RewindableCursor.0', '$2'])], 'c:::fetch_min'),
     ('scheduler::cursor::RewindableCursor', 'claim_before', [('cursor::claim_before', ['f:RewindableCursor.0', '$2'])], 'c:cursor::claim_before'),
     ('scheduler::cursor::RewindableCursor', 'get', [('::load', ['f:RewindableCursor.0'])], 'c:::load'),
@@ -351,9 +350,14 @@ def P2_more_pairing(ctx):
             ok = fl['logical_clock'][2] == (('const', '1_usize'),) and fl['validation'][2] == (('const', '0_usize'),) and fl['finality'][2] == (('const', '0_usize'),) \
                 and fl['committed'][2] == (('const', '0_usize'),) and fl['num_txs'] == ('arg', 1)
     ob(f, 'initial-cursors-zero-clock-one', ok, '', 'timestamps are compared strictly with lower bounds that start at 0: the clock must start above 0 or the first validation can never finalise')
-    cls = [c for c in ctx.facts.closures_under(f.name) if any('AtomicUsize' in show(ret_of(p)) or 'Atomic' in show(ret_of(p)) for p in feasible(ctx.fn(c).paths()))]
-    okz = all(all('0_usize' in show(ret_of(p)) for p in feasible(ctx.fn(c).paths())) for c in cls) and len(cls) >= 1
-    ob(f, 'timestamps-start-at-zero', okz, f'{len(cls)} element constructor closure(s) under SchedulerContext::new')
+    # the per-transaction timestamp vectors are built from zero: a closure returning AtomicUsize::new(0), or `Default::default`
+    # (zero for the atomic integers) handed to / called by the element constructor
+    cls = [c for c in ctx.facts.closures_under(f.name) if any('Atomic' in show(ret_of(p)) or show(ret_of(p)).lower().endswith('default()') for p in feasible(ctx.fn(c).paths()))]
+    okz = all(all('0_usize' in show(ret_of(p)) or 'default' in show(ret_of(p)).lower() for p in feasible(ctx.fn(c).paths())) for c in cls)
+    dflt = any(any(bl['term']['k'] == 'call' and any(a.get('k') == 'const' and str(a.get('fndef', '')).endswith('Default>::default') or str(a.get('fndef', '')).endswith('Default::default') for a in bl['term']['args'])
+                   for bl in b_['blocks']) for b_ in [f.b] + ctx.facts.code_under(f.name))
+    nonzero = any(re.search(r'Atomic[A-Za-z]*::new\((?!0_usize)', show(ret_of(p))) for c in cls for p in feasible(ctx.fn(c).paths()))
+    ob(f, 'timestamps-start-at-zero', okz and not nonzero and (len(cls) >= 1 or dflt), f'{len(cls)} element constructor closure(s) under SchedulerContext::new, Default::default as element constructor={dflt}')
     f = ctx.method('tx_dependency::TxDependency', 'new')
     ok = False
     for p in feasible(f.paths()):
